@@ -28,18 +28,24 @@ func c18Replay(t *testing.T, rec *vh.Rec) bool {
 
 // Exhaustive alphabet: 3 addresses x scripted verdict, two advances chosen so that the boundaries
 // are hit exactly (300 s = the short lifetime; 3300 s + 300 s = the long lifetime), clear-expired.
-func c18Alphabet() []c18Op {
+func c18Alphabet() []c18Op { return c18AlphabetMs(300_000, 3_300_000) }
+
+// c18AlphabetMs: the same alphabet with the two advances given in milliseconds (short lifetime;
+// long lifetime minus short lifetime).
+func c18AlphabetMs(shortMs, restMs int64) []c18Op {
 	q := func(a int, live bool) c18Op { return c18Op{Kind: "q", Addr: a, Port: 443, Live: live} }
+	adv := func(ms int64) c18Op { return c18Op{Kind: "adv", DeltaS: ms / 1000, DeltaMs: ms % 1000} }
 	return []c18Op{
 		q(0, true), q(0, false), q(1, true), q(1, false), q(2, true), q(2, false),
-		{Kind: "adv", DeltaS: 300}, {Kind: "adv", DeltaS: 3300}, {Kind: "clear"},
+		adv(shortMs), adv(restMs), {Kind: "clear"},
 	}
 }
 
 // c18ExhConfs: every combination of {class off, on} x capacity {0,1,2} for both classes (the
 // capacity of a switched-off class is kept in the product: it must not influence the other class).
-func c18ExhConfs(swapped, reduced bool) []c18Conf {
-	long, short := "1h", "5m"
+func c18ExhConfs(swapped, reduced bool) []c18Conf { return c18ExhConfsD("1h", "5m", swapped, reduced) }
+
+func c18ExhConfsD(long, short string, swapped, reduced bool) []c18Conf {
 	var out []c18Conf
 	for _, dl := range []string{"", long} {
 		for _, dn := range []string{"", short} {
@@ -73,10 +79,11 @@ func c18ExhConfs(swapped, reduced bool) []c18Conf {
 }
 
 func TestVerif_C18_exhaustive(t *testing.T) {
-	rec := vh.NewRec("C18", "exhaustive", "every history of length 1..L over the 9-symbol alphabet {query A/B/C x probe verdict live/non-live, advance 300 s, advance 3300 s, clear-expired} on every configuration {live off / 1h} x {non-live off / 5m} x capacities {0,1,2}^2 (thorough: also with the two lifetimes swapped; the longest length on a reduced configuration set); shortest histories first; non-trivial = the history contains a cache hit, an expiry followed by a re-probe with the opposite verdict, or an eviction; distinct by (configuration, history)")
+	rec := vh.NewRec("C18", "exhaustive", "every history of length 1..L over the 9-symbol alphabet {query A/B/C x probe verdict live/non-live, advance 300 s, advance 3300 s, clear-expired} on every configuration {live off / 1h} x {non-live off / 5m} x capacities {0,1,2}^2 (thorough: also with the two lifetimes swapped; the longest length on a reduced configuration set), plus the same product with lifetimes 1500ms / 500ms and advances 500 ms / 1000 ms up to length 4 (thorough 5); shortest histories first; non-trivial = the history contains a cache hit, an expiry followed by a re-probe with the opposite verdict, or an eviction; distinct by (configuration, history)")
 	defer rec.Flush()
 	rec.Require("hit-live", "hit-nonlive", "expiry-then-flip", "eviction", "reprobe-after-expiry", "reprobe-while-fresh", "clear-removed",
 		"conf:both", "conf:live-only", "conf:nonlive-only", "conf:uncached", "conf:capacity-live", "conf:capacity-nonlive")
+	rec.Require("conf:fractional-lifetime", "adv-subsecond", "query-within-1s-after-fractional-expiry")
 	if c18Replay(t, rec) {
 		return
 	}
@@ -86,47 +93,66 @@ func TestVerif_C18_exhaustive(t *testing.T) {
 	rec.SetExhaustive(true)
 	rec.Extra("max_len_all_confs", fullLen)
 	rec.Extra("max_len_reduced_confs", maxLen)
+	// a second family with lifetimes that are NOT whole seconds (live 1500ms, non-live 500ms) and
+	// advances of 500 ms and 1000 ms: every expiry falls exactly on a lifetime, strictly inside a
+	// second of age
+	fracAlpha := c18AlphabetMs(500, 1000)
+	fracLen := vh.Pick(4, 5)
+	rec.Extra("max_len_fractional_lifetime_confs", fracLen)
 	idx := 0
 	ops := make([]int, 0, maxLen)
+	type fam struct {
+		alpha []c18Op
+		confs []c18Conf
+	}
 	for L := 1; L <= maxLen; L++ {
-		var confs []c18Conf
+		var fams []fam
 		if L <= fullLen {
-			confs = c18ExhConfs(false, false)
+			confs := c18ExhConfs(false, false)
 			if vh.Thorough() {
 				confs = append(confs, c18ExhConfs(true, false)[9:]...) // first 9 = uncached, same as unswapped
 			}
+			fams = append(fams, fam{alpha, confs})
 		} else {
-			confs = c18ExhConfs(false, true)
+			fams = append(fams, fam{alpha, c18ExhConfs(false, true)})
+		}
+		if L <= fracLen {
+			fams = append(fams, fam{fracAlpha, c18ExhConfsD("1500ms", "500ms", false, false)[9:]})
 		}
 		total := 1
 		for i := 0; i < L; i++ {
 			total *= len(alpha)
 		}
-		for _, cf := range confs {
-			for n := 0; n < total; n++ {
-				idx++
-				if !vh.Mine(idx) {
-					continue
-				}
-				ops = ops[:0]
-				for i, x := 0, n; i < L; i++ {
-					ops = append(ops, x%len(alpha))
-					x /= len(alpha)
-				}
-				h := make([]c18Op, L)
-				for i := range h {
-					h[i] = alpha[ops[L-1-i]]
-				}
-				c18Check(t, rec, c18Case{Conf: cf, Ops: h})
-				if t.Failed() {
-					return
+		for _, f := range fams {
+			alpha := f.alpha
+			for _, cf := range f.confs {
+				for n := 0; n < total; n++ {
+					idx++
+					if !vh.Mine(idx) {
+						continue
+					}
+					ops = ops[:0]
+					for i, x := 0, n; i < L; i++ {
+						ops = append(ops, x%len(alpha))
+						x /= len(alpha)
+					}
+					h := make([]c18Op, L)
+					for i := range h {
+						h[i] = alpha[ops[L-1-i]]
+					}
+					c18Check(t, rec, c18Case{Conf: cf, Ops: h})
+					if t.Failed() {
+						return
+					}
 				}
 			}
 		}
 	}
 }
 
-var c18Durs = []string{"", "5m", "1h", "90s", "5m", "1h", "", "0s"}
+// lifetimes: whole seconds and — whatever time.ParseDuration accepts is a legal configuration —
+// fractional ones
+var c18Durs = []string{"", "5m", "1h", "90s", "5m", "1h", "", "0s", "1500ms", "2.5s", "500ms", "1m0.25s", "999ms", "1001ms"}
 
 func c18GenConf(rt *rapid.T) c18Conf {
 	return c18Conf{
@@ -137,9 +163,10 @@ func c18GenConf(rt *rapid.T) c18Conf {
 	}
 }
 
-// c18Deltas: advances biased to the configured lifetimes' boundaries.
+// c18Deltas: advances (milliseconds) biased to the configured lifetimes' boundaries, at second and
+// at sub-second distance on both sides.
 func c18Deltas(cf c18Conf) []int64 {
-	out := []int64{1, 7, 60}
+	out := []int64{1, 300, 1000, 7000, 60000}
 	for _, d := range []string{cf.DurLive, cf.DurNon} {
 		if d == "" {
 			continue
@@ -148,8 +175,9 @@ func c18Deltas(cf c18Conf) []int64 {
 		if err != nil || v <= 0 {
 			continue
 		}
-		s := int64(v / time.Second)
-		for _, x := range []int64{s, s - 1, s + 1, s / 2, s / 3, s - s/2} {
+		l := int64(v / time.Millisecond)
+		nextSec := (l/1000 + 1) * 1000
+		for _, x := range []int64{l, l - 1, l + 1, l + 400, l + 999, nextSec, nextSec - 1, l - 1000, l + 1000, l / 2, l / 3, l - l/2} {
 			if x > 0 {
 				out = append(out, x)
 			}
@@ -164,7 +192,8 @@ func c18GenOp(rt *rapid.T, nAddr int, deltas []int64, depth int, nestP int, pare
 	o := c18Op{Kind: k}
 	switch k {
 	case "adv":
-		o.DeltaS = rapid.SampledFrom(deltas).Draw(rt, "delta")
+		d := rapid.SampledFrom(deltas).Draw(rt, "delta_ms")
+		o.DeltaS, o.DeltaMs = d/1000, d%1000
 	case "q":
 		o.Addr = rapid.IntRange(0, nAddr-1).Draw(rt, "addr")
 		if parent >= 0 && rapid.IntRange(0, 2).Draw(rt, "same") > 0 {
@@ -200,10 +229,11 @@ func c18Gen(rt *rapid.T, maxOps, nestP int) c18Case {
 }
 
 func TestVerif_C18_random(t *testing.T) {
-	rec := vh.NewRec("C18", "random", "rapid-generated sequential histories of 1-200 operations {query, advance, clear-expired} over 4-6 addresses (v4 and v6), ports {443,80}, scripted verdicts with the error values the real probe produces; configurations: lifetimes {off,0s,90s,5m,1h}^2 x capacities {0..4}^2; advances biased to lifetime, lifetime+-1 s and fractions; non-trivial as in the exhaustive sub-check; distinct by (configuration, history)")
+	rec := vh.NewRec("C18", "random", "rapid-generated sequential histories of 1-200 operations {query, advance, clear-expired} over 4-6 addresses (v4 and v6), ports {443,80}, scripted verdicts with the error values the real probe produces; configurations: lifetimes {off,0s,90s,5m,1h,500ms,999ms,1001ms,1500ms,2.5s,1m0.25s}^2 x capacities {0..4}^2; advances (ms resolution) biased to lifetime, lifetime+-1 ms, +400 ms, +999 ms, the next whole second, +-1 s and fractions; non-trivial as in the exhaustive sub-check; distinct by (configuration, history)")
 	defer rec.Flush()
 	rec.Require("hit-live", "hit-nonlive", "expiry-then-flip", "eviction-live", "eviction-nonlive", "reprobe-after-expiry", "clear-removed",
 		"conf:both", "conf:live-only", "conf:nonlive-only", "conf:uncached", "conf:capacity-live", "conf:capacity-nonlive")
+	rec.Require("conf:fractional-lifetime", "adv-subsecond", "query-within-1s-after-fractional-expiry")
 	if c18Replay(t, rec) {
 		return
 	}
